@@ -128,11 +128,11 @@ def arity(ctx, world):
         if e.spec.startswith("bad:"):
             ctx.fail("A1.arity", construct_of(e), construct_of(e, "badspec"), e.loc, f"rule spec {e.spec[4:]} is neither None, 'same' nor callable", "first use raises only at registration... or never")
             continue
-        if id(e.site) in seen or e.argnum is None:
+        if (id(e.site), e.prim_id) in seen or e.argnum is None:
             continue
-        seen.add(id(e.site))
+        seen.add((id(e.site), e.prim_id))  # one call site inside a registration loop serves several primitives
         ar = prim_positional_arity(world, e.prim)
-        nums = [x.argnum for x in world.table.entries if x.site is e.site and isinstance(x.argnum, int)]
+        nums = [x.argnum for x in world.table.entries if x.site is e.site and x.prim_id == e.prim_id and isinstance(x.argnum, int)]
         inst = f"{e.mode}:{e.prim_id}@{norm_text(e.site.func)}"
         if ar is None or ar[1] is None:
             ctx.ob("A1.arity", inst, True, e.loc, nontrivial=False)
